@@ -79,24 +79,226 @@ def _describe(obj):
         return repr(obj)
 
 
-def _check_meaning(site, obj, want, value, out):
-    """obj (result of `site`) must carry dimension want.dim and exact SI scale want.scale."""
+def _sci(fr):
+    """Readable magnitude of an exact scale, also beyond the range of a float."""
+    try:
+        x = float(fr)
+        if x != 0.0 or fr == 0:
+            return "%.6e" % x
+    except OverflowError:
+        pass
+    return "about 1e%d" % (len(str(abs(fr.numerator))) - len(str(fr.denominator)))
+
+
+def _check_meaning(site, obj, want, value, out, tag=None, note=""):
+    """obj (result of `site`) must carry dimension want.dim and exact SI scale want.scale.  Returns True if so."""
+    tag = tag or site
     exp_type = Units if site in ("parse_units", "Units") else UnitValue
     if type(obj) is not exp_type:
-        out.append(("C18:%s:result-type" % site, "returned %s" % type(obj).__name__))
-        return
+        out.append(("C18:%s:result-type" % tag, "returned %s%s" % (type(obj).__name__, note)))
+        return False
     u = _units_of(site, obj)
     dim = uq.dim_of(u)
     if dim != want.dim:
-        out.append(("C18:%s:dimension" % site, "read with dimension %s, the symbols define %s" % (dim, want.dim)))
-        return
+        out.append(("C18:%s:dimension" % tag, "read with dimension %s, the symbols define %s%s" % (dim, want.dim, note)))
+        return False
     sc = si.si_scale(uq.sys_of(u), dim)
     if sc != want.scale:
-        out.append(("C18:%s:si-scale" % site, "read as %s (SI scale %.6e), the symbols define SI scale %.6e"
-                    % (si.units_string(uq.sys_of(u), dim), float(sc), float(want.scale))))
-        return
+        out.append(("C18:%s:si-scale" % tag, "read as %s (SI scale %s), the symbols define SI scale %s%s"
+                    % (si.units_string(uq.sys_of(u), dim), _sci(sc), _sci(want.scale), note)))
+        return False
     if value is not None and _bits(obj.value) != _bits(value):
-        out.append(("C18:%s:value" % site, "value read as %r, written %r" % (obj.value, value)))
+        out.append(("C18:%s:value" % tag, "value read as %r, written %r%s" % (obj.value, value, note)))
+        return False
+    return True
+
+
+# ---- histories: results, inputs and earlier parses must not be aliased ----------------------------
+
+ALL_SITES = UNIT_SITES + QUANT_SITES
+MUTATIONS = ("dim-attr", "dim-item", "sys-attr", "sys-item")
+# (pattern, first mutation, second mutation)
+#   P1  r = s1(T); mutate r;                    s2(T) must still mean T
+#   P2  r = s1(T); mutate r twice (dim + sys);  s2(T) must still mean T
+#   P3  r = s1(T); r' = s1(T); mutate r';       r and s2(T) must still mean T
+HISTORY_VARIANTS = ([("P1", m, None) for m in MUTATIONS] + [("P2", "dim-attr", "sys-item")]
+                    + [("P3", m, None) for m in MUTATIONS])
+FRESH_EXP0 = 101          # exponents 101..325 mark texts that no other sub-space ever parses
+PRINT_FRESH_EXP0 = 401    # same for printed texts
+
+
+def _other(kind, cur):
+    col = [s for s in SYMS47 if G.TABLE[s][0] == kind]
+    return col[0] if cur != col[0] else col[1]
+
+
+def _mut_parts(sysobj, dimobj, kind):
+    """In-place modification through the public setters of UnitsSystem / UnitsDimensions."""
+    if kind == "dim-attr":
+        dimobj.space = dimobj.space + 1
+        dimobj.time = dimobj.time + 1
+        dimobj.quantity = dimobj.quantity + 1
+    elif kind == "dim-item":
+        for k in KINDS:
+            dimobj[k] = dimobj[k] - 2
+    elif kind == "sys-attr":
+        sysobj.space = _other("space", sysobj.space)
+        sysobj.time = _other("time", sysobj.time)
+        sysobj.quantity = _other("quantity", sysobj.quantity)
+    elif kind == "sys-item":
+        for k in KINDS:
+            sysobj[k] = _other(k, sysobj[k])
+    else:
+        raise ValueError(kind)
+
+
+def _mutate(obj, kind):
+    """The caller re-uses ITS object: units modified in place, and the value of a quantity."""
+    if isinstance(obj, UnitValue):
+        _mut_parts(obj.units.sys, obj.units.dim, kind)
+        obj.value = obj.value * 3.0 + 7.0
+    else:
+        _mut_parts(obj.sys, obj.dim, kind)
+
+
+def _snapshot(x):
+    if isinstance(x, UnitValue):
+        return (uq.sys_of(x.units), uq.dim_of(x.units), _bits(x.value).hex(), str(x))
+    return (uq.sys_of(x), uq.dim_of(x), None, str(x))
+
+
+def history_cover():
+    """Cover texts that stay pairwise different once their first exponent is overwritten."""
+    out, seen = [], set()
+    for w in valid_cover():
+        f = G.classify_units(w).factors[0]
+        skel = w[:f.expstart] + ("-" if f.exponent < 0 else "") + "#" + w[f.end:]
+        if skel not in seen:
+            seen.add(skel)
+            out.append(w)
+    return out
+
+
+def _fresh_text(w, idx, base=FRESH_EXP0):
+    """w with the exponent of its first factor replaced by +-(base+idx): a text unique to one case."""
+    f = G.classify_units(w).factors[0]
+    return w[:f.expstart] + str((base + idx) * (-1 if f.exponent < 0 else 1)) + w[f.end:]
+
+
+def _parse_checked(site, text, want, out, n, tag, note):
+    n[0] += 1
+    try:
+        obj = _call(site, _qtext(site, text))
+    except Exception as e:
+        out.append(("C18:%s:valid-text-rejected" % tag, "%s: %s%s" % (type(e).__name__, str(e)[:200], note)))
+        return None
+    return obj if _check_meaning(site, obj, want, _qval(site), out, tag=tag, note=note) else None
+
+
+def _history(case, out, n):
+    text, s1, s2, pattern = case["text"], case["s1"], case["s2"], case["pattern"]
+    want = G.classify_units(text)
+    if not want.valid:
+        return
+    r1 = _parse_checked(s1, text, want, out, n, "history:first-parse:" + s1, " [text %r]" % text)
+    if r1 is None:
+        return
+    target = r1
+    if pattern == "P3":
+        target = _parse_checked(s1, text, want, out, n, "history:re-parse:" + s1, " [second %s of %r]" % (s1, text))
+        if target is None:
+            return
+    _mutate(target, case["mut"])
+    if case.get("mut2"):
+        _mutate(target, case["mut2"])
+    how = " [%r: %s, %s%s of that result, then %s]" % (text, s1 if pattern != "P3" else s1 + " twice", case["mut"],
+                                                     "+" + case["mut2"] if case.get("mut2") else "", s2)
+    if pattern == "P3":
+        _check_meaning(s1, r1, want, _qval(s1), out, tag="history:results-aliased:" + s1,
+                       note=" [%r: two results of %s; modifying the second changed the first]" % (text, s1))
+    _parse_checked(s2, text, want, out, n, "history:after-modified-%s-result:%s" % (s1, s2), how)
+
+
+def _history_print(case, out, n):
+    sys3, dim, form, s1, s2 = tuple(case["sys"]), tuple(case["dim"]), case["form"], case["s1"], case["s2"]
+    x = uq.mk_units(sys3, dim) if form == "units" else UnitValue(0.1, uq.mk_units(sys3, dim))
+    before = _snapshot(x)
+    text = before[3]
+    for step, site in (("first", s1), ("second", s2)):
+        n[0] += 1
+        tag = "history-print:%s-parse:%s" % (step, site)
+        try:
+            p = _call(site, text)
+        except Exception as e:
+            out.append(("C18:%s:printed-text-rejected" % tag, "%r: %s: %s" % (text, type(e).__name__, str(e)[:200])))
+            return
+        pu = p.units if isinstance(p, UnitValue) else p
+        k = len(out)
+        _same_units(tag, text, pu, sys3, dim, out)
+        if form == "quantity" and isinstance(p, UnitValue) and _bits(p.value) != _bits(0.1):
+            out.append(("C18:%s:value" % tag, "0.1 printed as %r parsed back as %r" % (text, p.value)))
+        if len(out) > k:
+            return
+        if step == "first":
+            _mutate(p, case["mut"])
+            after = _snapshot(x)
+            if after != before:
+                out.append(("C18:history-print:printed-object-changed", "%r changed to %r when the object parsed from its "
+                            "text was modified (%s)" % (before[3], after[3], case["mut"])))
+                return
+
+
+def _input_alias(case, out, n):
+    sys3, dim, form = tuple(case["sys"]), tuple(case["dim"]), case["form"]
+    so, do = uq.mk_sys(sys3), uq.mk_dim(dim)
+    if form == "units":
+        x = Units(so, do)
+        before = _snapshot(x)
+        _mut_parts(so, do, case["mut"])
+    else:
+        uo = Units(so, do)
+        x = UnitValue(0.1, uo)
+        before = _snapshot(x)
+        _mut_parts(so, do, case["mut"])
+        _mut_parts(uo.sys, uo.dim, case["mut"])
+    n[0] += 1
+    after = _snapshot(x)
+    if after != before:
+        out.append(("C18:input-alias:%s:changed-with-its-constructor-arguments" % form,
+                    "%r became %r when the objects it was built from were modified (%s)" % (before[3], after[3], case["mut"])))
+        return
+    site = "parse_units" if form == "units" else "parse_unitvalue"
+    n[0] += 1
+    p = _call(site, after[3])
+    _same_units("input-alias:%s:%s" % (form, site), after[3], p.units if form == "quantity" else p, sys3, dim, out)
+
+
+def _signature(text, n):
+    sig = []
+    for site in ALL_SITES:
+        n[0] += 1
+        try:
+            sig.append(_describe(_call(site, _qtext(site, text))))
+        except Exception as e:
+            sig.append("raised " + type(e).__name__)
+    return sig
+
+
+def _two_pass(case, out, n):
+    texts = [G.factor_text(s, e) for s in SYMS52 for e in EXPS1]
+    seen = {}
+    for pss, order in ((1, texts), (2, texts[::-1])):
+        for tx in order:
+            res = check_case({"sub": "valid", "text": tx}, n)
+            for key, what in res:
+                out.append((key.replace("C18:", "C18:two-pass:", 1), "pass %d, %r: %s" % (pss, tx, what)))
+            sig = (_signature(tx, n), sorted(k for k, w in res))
+            if pss == 1:
+                seen[tx] = sig
+            elif seen[tx] != sig:
+                out.append(("C18:two-pass:verdict-depends-on-history",
+                            "%r: first pass %s, second pass (reverse order) %s" % (tx, seen[tx], sig)))
+    return out
 
 
 def _expect_valid(sites, text_of, want, value_of, out, n):
@@ -198,6 +400,14 @@ def check_case(case, stats=None):
                     out.append(("C18:print-quantity:%s:value" % site,
                                 "%r printed as %r parsed back as %r" % (float(val), text, p.value)))
                 _same_units("print-quantity:" + site, text, p.units, sys3, dim, out)
+        elif sub == "history":
+            _history(case, out, n)
+        elif sub == "history-print":
+            _history_print(case, out, n)
+        elif sub == "input-alias":
+            _input_alias(case, out, n)
+        elif sub == "two-pass":
+            _two_pass(case, out, n)
         else:
             raise ValueError(sub)
     except Exception as e:
@@ -491,6 +701,52 @@ def _spaces(tier):
     sp.append(("malformed: family derived from the %d-text valid cover (%d candidates the reference finds legal or "
                "unspecified were dropped)" % (len(cover), dropped), len(fam),
                lambda i: {"sub": "malformed", "cls": fam[i][0], "form": fam[i][1], "text": fam[i][2], "origin": fam[i][3]}))
+    # histories
+    hc = history_cover()
+    nvar = len(HISTORY_VARIANTS)
+    rh = [len(hc), 5, 5, nvar]
+
+    def ch(i):
+        w, a, b, v = _mixed(i, rh)
+        pat, m1, m2 = HISTORY_VARIANTS[v]
+        return {"sub": "history", "text": _fresh_text(hc[w], (a * 5 + b) * nvar + v), "origin": hc[w],
+                "s1": ALL_SITES[a], "s2": ALL_SITES[b], "pattern": pat, "mut": m1, "mut2": m2}
+    sp.append(("history-fresh: %d cover texts (each case on a text no other case parses: first exponent %d..%d) x 25 "
+               "ordered site pairs x %d variants (P1 x 4 mutations, P2 two mutations, P3 re-parse then 4 mutations)"
+               % (len(hc), FRESH_EXP0, FRESH_EXP0 + 25 * nvar - 1, nvar), len(hc) * 25 * nvar, ch))
+    rp = [len(cover), 5, 5, len(MUTATIONS)]
+
+    def chp(i):
+        w, a, b, m = _mixed(i, rp)
+        return {"sub": "history", "text": cover[w], "origin": cover[w], "s1": ALL_SITES[a], "s2": ALL_SITES[b],
+                "pattern": "P1", "mut": MUTATIONS[m], "mut2": None}
+    sp.append(("history-plain: the %d cover texts as they are (parsed many times before) x 25 site pairs x 4 mutations, P1"
+               % len(cover), len(cover) * 25 * 4, chp))
+    usites, qsites = ("parse_units", "Units"), QUANT_SITES
+    rhp = [36, 2, 2, 2, len(MUTATIONS)]
+
+    def chpr(i):
+        s, f, a, b, m = _mixed(i, rhp)
+        sites = usites if f == 0 else qsites
+        dim = [1, -1, 2]
+        dim[i % 3] = (PRINT_FRESH_EXP0 + i // 3) * (1 if i % 2 else -1)
+        return {"sub": "history-print", "sys": S36[s], "dim": dim, "form": ("units", "quantity")[f],
+                "s1": sites[a], "s2": sites[b], "mut": MUTATIONS[m]}
+    sp.append(("history-print: 36 systems x {Units, UnitValue} x 2x2 parser pairs x 4 mutations of the parsed-back object "
+               "(the printed object must not change, a second parse must be right); one exponent unique per case",
+               36 * 2 * 2 * 2 * 4, chpr))
+    ria = [36, 2, len(MUTATIONS)]
+
+    def cia(i):
+        s, f, m = _mixed(i, ria)
+        dim = [2, -1, 1]
+        dim[i % 3] = (PRINT_FRESH_EXP0 + 400 + i // 3) * (1 if i % 2 else -1)
+        return {"sub": "input-alias", "sys": S36[s], "dim": dim, "form": ("units", "quantity")[f], "mut": MUTATIONS[m]}
+    sp.append(("input-alias: 36 systems x {Units(sys, dim), UnitValue(v, units)} x 4 mutations of the constructor "
+               "arguments afterwards", 36 * 2 * 4, cia))
+    n1 = len(SYMS52) * len(EXPS1)
+    sp.append(("two-pass: valid-1 run twice inside one process, forward then reverse (verdicts and results identical)",
+               2 * n1, lambda i: {"sub": "two-pass", "n": n1}))
     return sp
 
 
@@ -504,6 +760,9 @@ def _nontrivial(case):
         return case["text"] not in _DEFAULT_BARE
     if sub.startswith("print"):
         return tuple(case["dim"]) != (0, 0, 0)
+    if sub == "history":
+        v = G.classify_units(case["text"])
+        return v.valid and v.dim != (0, 0, 0)
     return True
 
 
@@ -512,6 +771,13 @@ def _work(job):
     name, size, at = _SPACES[k]
     acc = core.Acc()
     stats = [0, 0]
+    if name.startswith("two-pass"):
+        case = at(0)
+        for key, what in check_case(case, stats):
+            acc.violation(key, what, case)
+        acc.add(states=size, traces=size, nontrivial=size, transitions=stats[0], evaluations=stats[0])
+        acc.count("calls_that_raised", stats[1])
+        return acc.pack()
     for i in range(lo, hi):
         case = at(i)
         res = check_case(case, stats)
@@ -522,6 +788,8 @@ def _work(job):
             acc.count("valid_side_texts_" + v.status + ("_same_kind_conflict" if v.invalid else ""))
         elif sub == "malformed":
             acc.count("malformed_" + case["cls"].split(":")[0].replace("-accepted", ""))
+        elif sub == "history":
+            acc.count("history_cases_first_site_" + case["s1"])
         for key, what in res:
             acc.violation(key, what, case)
         if i in (0, size // 2):
@@ -552,7 +820,9 @@ def run(ctx):
              "parse_units, Units(str), UnitValue(v, str), parse_unitvalue and UnitValue(str) (print-parse: str() "
              "then the parsers); texts are distinct by construction; a valid-side text is non-trivial unless it is "
              "a bare default base symbol, a print case unless it is dimensionless; every malformed text counted was "
-             "first confirmed by the reference recogniser to be outside the documented grammar")
+             "first confirmed by the reference recogniser to be outside the documented grammar; history cases: "
+             "parse, modify the returned object in place through the public setters, parse again (all ordered pairs of "
+             "the five entry points), non-trivial when the text has a non-zero dimension")
     ctx.assume("the documented grammar and symbol table as coded in mc/ref/grammar.py (self-tested against the "
                "OK / wrong examples and the table of documentation/using_quantities_with_units.rst); texts the "
                "documentation leaves open (zero exponents, nan/inf, underscores, non-ASCII digits, outer blanks) are "
